@@ -94,7 +94,8 @@ func (w *vC20HWorld) Log(_ logger.Level, format string, args ...any) {
 	li := fmt.Sprintf(format, args...)
 	w.mu.Lock()
 	defer w.mu.Unlock()
-	if strings.Contains(li, "[muxer ") && strings.Contains(li, "destroyed:") {
+	// the muxer's own last line ("[muxer p] destroyed: ..", after every close2), not "[muxer p] instance destroyed: .."
+	if strings.Contains(li, "[muxer ") && strings.Contains(li, "] destroyed:") {
 		w.destroyed++
 		return
 	}
@@ -493,6 +494,11 @@ func vC20HRunCase(idx int, seed uint64) (res vC20HResult) {
 	if class == "muxer-close-then-new" {
 		always = false
 	}
+	if class == "instance-crash" {
+		// both kinds of muxer on every run: "muxer instance crashed" keeps an always-remux muxer (sessions closed in
+		// place) and destroys a client-requested one
+		always = (idx/len(vC20HClasses))%2 == 0
+	}
 	res.class = class
 	res.feats = map[string]int{}
 	w, err := vC20HNewWorld(readOn, unreadOn, always)
@@ -648,7 +654,7 @@ func vC20HRunCase(idx int, seed uint64) (res vC20HResult) {
 		}
 		randomBody(r.Intn(3), false)
 	case "instance-crash":
-		concurrent([]bool{r.Bool(), true}, false)
+		concurrent([]bool{false, true, r.Bool()}, r.Bool())
 		doCloseAll("crash")
 		randomBody(r.Intn(3), false)
 	case "muxer-close-then-new":
